@@ -62,6 +62,9 @@ def agree(x, y):
 LABELS = ["int", "str", "tuple", "frozendict", "mixed"]
 DISTS = ["dict", "dict_zeros", "det", "uniform"]
 BREPS = ["returned", "zeros", "dict", "native"]
+# how a Belief tuple (states, probs) is handed to the functions that accept one: as the library builds it
+# (states = state_list), with the states in another order, or listing the supported states only
+TUPLE_REPS = ["canonical", "permuted", "permuted", "support"]
 
 
 # --------------------------------------------------------------------------------------------
@@ -95,11 +98,20 @@ def make_cases(rng, n, tier):
         m = pb.rand_pomdp(rng, n_na=n_na, n_abs=n_abs, K=K, NO=NO, PD=PD, OD=OD,
                           ghost=ghost, ID=rng.choice([2, 3, 4]), obs_kind=obs_kind)
         m["GN"], m["GD"] = rng.choice([(1, 2), (9, 10), (1, 1)])
+        m["alpha"] = [rng.randint(-2, 2) for _ in range(m["N"])]
         rep = dict(labels=rng.choice(LABELS), alabels=rng.choice(LABELS), olabels=rng.choice(LABELS),
                    explicit_list=rng.random() < 0.5, dist=rng.choice(DISTS), odist=rng.choice(DISTS),
-                   outside=None, brep=rng.choice(BREPS), keyperm=rng.random() < 0.3)
+                   outside=None, brep=rng.choice(BREPS), keyperm=False,
+                   agrep=rng.choice(TUPLE_REPS), keyrep=rng.choice(TUPLE_REPS), statedep_actions=False)
+        # state-dependent action sets: terminal (and a few other) states offer a subset of the actions
+        if K >= 2 and rng.random() < 0.4:
+            rep["statedep_actions"] = pb.restrict_actions(rng, m)
         if not rep["explicit_list"] and not gen.ghost_closed(m):
             rep["explicit_list"] = True     # ghost successors outside the inferred list: C06's business
+        if not rep["explicit_list"] and rep["statedep_actions"]:
+            r = gen.reach(m)
+            if any(not any(m["avail"][s][a] for s in r) for a in range(K)):
+                rep["explicit_list"] = True  # an action offered only at unreachable states: keep the action list complete
         # the shapes of DESIGN section 9 item 12: a zero-probability entry that is in no list
         if k % 25 == 7:
             rep["outside"] = "obs-zero"
@@ -125,7 +137,9 @@ def make_cases(rng, n, tier):
         t, a, o, beliefs = pb.plant_rare_observation(rng, m)
         rep = dict(labels=rng.choice(LABELS), alabels=rng.choice(LABELS), olabels=rng.choice(LABELS),
                    explicit_list=True, dist=rng.choice(DISTS), odist=rng.choice(DISTS),
-                   outside=None, brep=rng.choice(BREPS), keyperm=rng.random() < 0.3)
+                   outside=None, brep=rng.choice(BREPS), keyperm=False,
+                   agrep=rng.choice(TUPLE_REPS), keyrep=rng.choice(TUPLE_REPS), statedep_actions=False)
+        m["alpha"] = [rng.randint(-2, 2) for _ in range(m["N"])]
         m["beliefs"] = [list(m["p0"])] + beliefs
         m["D"], m["DB"], m["LL"] = 1, 1, 0
         m["machs"] = ["filter", "bmdp"]
@@ -158,6 +172,23 @@ def shape_of(w, m):
     if min(w[s] for s in supp) * 10 ** 6 < sum(w):
         tag += "+tiny-mass"
     return tag
+
+
+def rearrange(belief, mode, rng):
+    """The same belief as a hand-made Belief tuple: states in another order / supported states only.
+    The probabilities are the real ones (nothing is recomputed)."""
+    from msdm.core.pomdp.tabularpomdp import Belief
+    pairs = list(zip(belief.states, belief.probs))
+    if mode == "canonical" or mode is None:
+        return belief
+    if mode == "support":
+        pairs = [(s, pr) for s, pr in pairs if pr > 0] or pairs
+    if len(pairs) > 1:
+        k = rng.randrange(1, len(pairs))
+        pairs = pairs[k:] + pairs[:k]              # a rotation is never the identity
+        if len(pairs) > 2 and rng.random() < 0.5:
+            pairs[0], pairs[1] = pairs[1], pairs[0]
+    return Belief(tuple(s for s, _ in pairs), tuple(pr for _, pr in pairs))
 
 
 class Judge:
@@ -198,7 +229,7 @@ class Judge:
         m, rep = self.m, self.rep
         rng = random.Random(digest(self.case))
         mb = self.case.get("m_build", m)         # selftest: a different instance is handed to msdm
-        self.B = B = pb.build_pomdp(mb, rng=rng, **rep)
+        self.B = B = pb.build_pomdp(mb, rng=rng, **{k: v for k, v in rep.items() if k != "rng"})
         B.m = m
         p = self.p = B.pomdp
         self.node_ok = True
@@ -240,10 +271,12 @@ class Judge:
             self.check_observation_tensor()
         self.bm = BeliefMDP(p)
 
-        class _Pol(ValueBasedTabularPOMDPPolicy):
-            def action_value(self, b, a):
-                return 0.0
-        self.pol = _Pol(p)
+        from msdm.core.pomdp.alphavectorpolicy import AlphaVectorPolicy
+        self.alpha = m.get("alpha")
+        av = np.array([[float(self.alpha[n]) if self.alpha else 0.0 for n in self.spos]])
+        self.pol = AlphaVectorPolicy(p, av)        # a ValueBasedTabularPOMDPPolicy (next_agentstate is inherited)
+        self.trng = random.Random(digest(self.case) + "tuples")
+        self.sdtag = "+restricted-actions" if any(0 in row for row in m["avail"]) else ""
         return True
 
     def check_observation_tensor(self):
@@ -313,6 +346,30 @@ class Judge:
                 return False
         return True
 
+    # ------------------------------------------------------------------ value-based policy reading Belief tuples
+    def check_alpha_values(self, rec, rag, eb, la, allowed, shape):
+        """AlphaVectorPolicy with ONE alpha vector: value(b) = alpha.b and, because the probability-weighted
+        mean of the posteriors is the state prediction, action_value(b, a) = R(b, a) + gamma * alpha.pred(b, a).
+        Both must not depend on how the Belief tuple lists its states."""
+        m, B = self.m, self.B
+        g = F(m["GN"], m["GD"])
+        exp_v = F(la["val"], la["bsum"])
+        for mode in ("canonical", "permuted", "support"):
+            ag = rearrange(rag, mode, self.trng)
+            tag = shape + ("" if mode == "canonical" else f"+{mode}-belief-tuple")
+            v = self.call("AlphaVectorPolicy.value", tag, rec, self.pol.value, ag)
+            if v is not None and not abs(float(v) - float(exp_v)) <= TOL * max(1.0, abs(float(exp_v))):
+                self.fail("AlphaVectorPolicy.value", "belief-tuple-read-through-its-own-states", tag,
+                          f"value({ag}) = {v!r}, exact alpha.b = {exp_v} (alpha {m['alpha']})", rec)
+            for a in allowed:
+                exp_q = F(la["rw"][a], la["rden"]) + g * F(la["apred"][a], la["rden"])
+                q = self.call("AlphaVectorPolicy.action_value", tag, rec, self.pol.action_value, ag, B.alabel[a])
+                if q is not None and not abs(float(q) - float(exp_q)) <= TOL * max(1.0, abs(float(exp_q))):
+                    self.fail("AlphaVectorPolicy.action_value", "reward-plus-discounted-mean-of-posteriors", tag,
+                              f"action_value({ag}, {a}) = {q!r}, exact R + gamma*alpha.pred = {exp_q}", rec)
+                elif q is not None:
+                    self.ctx.validated += 1
+
     # ------------------------------------------------------------------ the filter machine
     def run_filter(self, b0):
         from msdm.core.pomdp.tabularpomdp import Belief
@@ -345,15 +402,22 @@ class Judge:
             rd, rv, rag = real[h]
             w = rec["bv"]
             eb = exact_belief(w)
-            shape = shape_of(w, m)
+            shape = shape_of(w, m) + self.sdtag
             la = rec["la"]
             inp = self.belief_input(rd, None) if h else rd
             if not la:                      # tiny-mass case: a leaf without look-ahead table (spec: HasLA)
                 ctx.count("tiny_mass_leaves_without_lookahead")
                 continue
             den = la["den"]
+            allowed = sorted(a - 1 for a in la["allowed"])     # actions available in every supported state
+            if allowed != pb.allowed_actions(m, w):
+                raise TLCFailure(f"case {self.idx}: allowed actions differ (TLA+ {allowed} vs Python)")
+            if len(allowed) < K:
+                ctx.count("nodes_with_unavailable_actions")
+            if self.alpha and len(h) <= 1:
+                self.check_alpha_values(rec, rag, eb, la, allowed, shape)
             # ---- predictive observation distribution (dictionary and vector)
-            for a in range(K):
+            for a in allowed:
                 exp = [F(la["obs"][a][o], den) for o in range(NO)]
                 if sum(exp) != 1:
                     raise TLCFailure(f"case {self.idx}: emitted predictive distribution does not sum to 1")
@@ -389,7 +453,7 @@ class Judge:
                                           f"dictionary {dict(pod)} vs vector {pov.tolist()}", rec)
             # ---- one filter step per (action, observation)
             if len(h) < m["D"]:
-                for a in range(K):
+                for a in allowed:
                     for o in range(NO):
                         ck = ("filter", b0, h + ((a + 1, o + 1),))
                         child = self.recs.get(ck)
@@ -445,8 +509,10 @@ class Judge:
                         elif self.vec_ok:
                             ctx.skip("vector filter not applicable: observation never has positive probability (not in observation_list)")
                         # belief tracking inside value-based policies
-                        nag = self.call("ValueBasedTabularPOMDPPolicy.next_agentstate", oshape, child,
-                                        self.pol.next_agentstate, rag, B.alabel[a], B.olabel[o])
+                        agin = rearrange(rag, self.rep.get("agrep"), self.trng)
+                        ashape = oshape + ("" if agin is rag else f"+{self.rep.get('agrep')}-belief-tuple")
+                        nag = self.call("ValueBasedTabularPOMDPPolicy.next_agentstate", ashape, child,
+                                        self.pol.next_agentstate, agin, B.alabel[a], B.olabel[o])
                         oka = False
                         if nag is not None:
                             try:
@@ -458,7 +524,7 @@ class Judge:
                                           f"returned {nag!r}", child)
                             else:
                                 pos = {n: i for i, n in enumerate(self.spos)}
-                                oka = self.cmp_belief("ValueBasedTabularPOMDPPolicy.next_agentstate", child, oshape,
+                                oka = self.cmp_belief("ValueBasedTabularPOMDPPolicy.next_agentstate", child, ashape,
                                                       lambda n: pr[pos[n]] if n in pos else None, exp)
                         if live and okd:
                             # feed the REAL outputs back in (fall back to exact values where a side is unavailable)
@@ -514,18 +580,19 @@ class Judge:
             if h not in real:
                 continue
             self.node_ok = True
-            rk = real[h]
             w = rec["bv"]
-            shape = shape_of(w, m)
+            rk = rearrange(real[h], self.rep.get("keyrep"), self.trng)
+            shape = shape_of(w, m) + self.sdtag + ("" if rk is real[h] else f"+{self.rep.get('keyrep')}-belief-tuple")
             la = rec["la"]
             if not la:
                 continue
+            allowed = sorted(a - 1 for a in la["allowed"])
             # ---- absorption
             ab = self.call("BeliefMDP.is_absorbing", shape, rec, bm.is_absorbing, rk)
             if ab is not None and bool(ab) != bool(la["absb"]):
                 self.fail("BeliefMDP.is_absorbing", "mass-on-absorbing-states", shape,
                           f"is_absorbing = {bool(ab)} for belief weights {w} with absorbing flags {m['abs']}", rec)
-            for a in range(K):
+            for a in allowed:
                 # ---- transition row
                 row = self.call("BeliefMDP.next_state_dist", shape, rec, bm.next_state_dist, rk, B.alabel[a])
                 succ = [(exact_belief(s["b"]), F(s["w"], la["den"]), tuple(s["b"])) for s in la["succ"][a]]
@@ -711,7 +778,12 @@ def run(ctx):
         "posteriors are compared with the exact rationals at 1e-9 absolute (direct algebraic results, chains of <= 4 updates); "
         "predictive and belief-MDP transition probabilities, which can be ~1e-9 at tiny-mass beliefs, at 1e-9 relative + 1e-18 "
         "(sums of non-negative products: relative float error < 1e-13, derivation at rel_close)",
-        "every action is available in every state (a state-dependent action set has no POMDP semantics)",
+        "40% of the cases with >= 2 actions have state-dependent action sets (terminal and a few other states offer a subset; "
+        "the observation kernel is defined for every (action, arrival state)); the real code is only run with actions "
+        "available in every supported state (POMDP!Allowed)",
+        "Belief tuples handed to next_agentstate / BeliefMDP / AlphaVectorPolicy are the real outputs, re-listed canonically, "
+        "with permuted states or with the supported states only; AlphaVectorPolicy is run with one integer alpha vector, for "
+        "which action_value = R(b,a) + gamma*alpha.prediction exactly (mean-of-posteriors clause)",
         "the Bayes filter and the belief reward use the declared rows of absorbing states (literal reading); "
         "75% of the instances have self-looping zero-reward absorbing states where both readings coincide",
         "beliefs are supported on the state list",
